@@ -157,6 +157,10 @@ def family_options(m, tier, add_bench, open_mod, close_mod):
     add_bench(m, gc2, 12, "own_chars", form="bencher", options=[("chars_count", "1u32")])
     add_bench(m, gc2, 12, "bencher_counter_items", form="bencher", bencher_style="counter")
     close_mod(m, 8)
+    # per-input counters of the other kinds, next to inherited constant ones of the same and of other kinds
+    add_bench(m, g, 8, "input_chars", form="bencher", bencher_style="values_chars")
+    add_bench(m, g, 8, "input_chars_over_attr", form="bencher", bencher_style="values_chars", options=[("chars_count", "40u32")])
+    add_bench(m, g, 8, "input_cycles_items", form="bencher", bencher_style="refs_cycles_items")
     pm = open_mod(m, g, 8, "plain")
     add_bench(m, pm, 12, "through_module", form="bencher")
     close_mod(m, 8)
